@@ -3,8 +3,8 @@
 cd "$(dirname "$0")/.."
 p=$1; out=/tmp/post_r7_$p.log; : > $out
 for s in 0 5 7 11; do ./check $p --seed $s 2>&1 | grep -E "^$p (OK|VIOLATED)|^VIOLATION|MACHINERY" | cut -c1-250 >> $out; done
-for d in seeded/${p}_m*g seeded/${p}_m*f; do
-  tools/try_mutant.py $d --keep --skip-confirm --seeds 3,4 > /tmp/post_$(basename $d).log 2>&1
+for d in seeded/${p}_m*g; do
+  tools/try_mutant.py $d --keep --skip-confirm --seeds 3 > /tmp/post_$(basename $d).log 2>&1
   echo "$(basename $d) $(grep -o '"caught": [a-z]*' /tmp/post_$(basename $d).log | head -1)" >> $out
 done
 for d in refactorings/${p}_r*; do
